@@ -21,7 +21,7 @@ var (
 )
 
 func TestMain(m *testing.M) {
-	rec01.SetRule("(tree state, request) pairs served by webdav.Handler over LocalFileSystem on a real directory and compared with the abstract RFC 4918 model: engine A = product of all 361 trees over names {a,b} (depth <= 2, contents '1'/'22') with a fixed request set (every method x 8 paths; PROPFIND x Depth x body form; COPY/MOVE x 8 sources x 12 destination forms x Depth x Overwrite; conditional PUT/DELETE) - complete in the thorough tier, a fixed-seed sample in the quick tier; a third of the pairs is repeated under a renaming of the two names ({..b,b}, {a,...}, {'a b',a%41}, {.a,a.}, {-,e-acute}) or another spelling of the request paths (trailing slash on target and/or destination, '/./', '//'); engine B = rapid state-machine histories over 8 names with URL/XML metacharacters, depth <= 4, contents up to 256 KiB. non-trivial = the request touches an existing resource (target, source, destination or required parent); distinct by (canonical tree, request)")
+	rec01.SetRule("(tree state, request) pairs served by webdav.Handler over LocalFileSystem on a real directory and compared with the abstract RFC 4918 model: engine A = product of all 361 trees over names {a,b} (depth <= 2, contents '1'/'22') with a fixed request set (every method x 8 paths; PROPFIND x Depth x body form; COPY/MOVE x 8 sources x 12 destination forms x Depth x Overwrite; conditional PUT/DELETE) - complete in the thorough tier, a fixed-seed sample in the quick tier; a third of the pairs is repeated under a renaming of the two names ({..b,b}, {a,...}, {'a b',a%41}, {.a,a.}, {-,e-acute}, {n,n.bak}, {ab,a}, {a.html,b}, {a,b.html}) or another spelling of the request paths (trailing slash on target and/or destination, '/./', '//'); engine B = rapid state-machine histories over 8 names with URL/XML metacharacters, depth <= 4, contents up to 256 KiB. non-trivial = the request touches an existing resource (target, source, destination or required parent); distinct by (canonical tree, request)")
 	rec02.SetRule("same exploration as C01 plus PUT bodies that fail after k bytes (every k for bodies <= 64 bytes, offsets around the 32 KiB copy buffer for large ones; plain error, unexpected EOF, cancelled context) against absent and existing targets; model-free oracle: any response >= 400 must leave the on-disk tree (names, kinds, bytes) unchanged. non-trivial = response >= 400 while some resource the request names exists; distinct by (canonical tree, request)")
 	rec17.SetRule("every response of the C01/C02 exploration plus a failure-mode enumerator (ENOENT, EEXIST, EISDIR, ENOTDIR, ENOTEMPTY, EINVAL, ENAMETOOLONG, ELOOP; root reached directly and through a symlinked parent) is scanned (all header values and the body) for the random tokens in the served directory's host path, the configured root string and its symlink-resolved form. non-trivial = response >= 400 with a non-empty body; distinct by (canonical tree, request)")
 	for _, r := range []*vev.Rec{rec01, rec02, rec17} {
@@ -268,9 +268,9 @@ func smallRequests() (basic, copymove []vfs.Req) {
 // Engine A variants: the same (state, request) pair under a renaming of the two names or another spelling of the
 // request paths.  The model is name-agnostic, so the expected outcome is the renamed expected outcome; the server
 // may not be (names that start with dots, that contain blanks or percent signs; a trailing slash).
-var aliasPairs = [][2]string{{"..b", "b"}, {"a", "..."}, {"a b", "a%41"}, {".a", "a."}, {"-", "é"}, {"..", "b"}}
+var aliasPairs = [][2]string{{"..b", "b"}, {"a", "..."}, {"a b", "a%41"}, {".a", "a."}, {"-", "é"}, {"n", "n.bak"}, {"ab", "a"}, {"a.html", "b"}, {"a", "b.html"}}
 
-const nVariants = 9
+var nVariants = len(aliasPairs) + 4
 
 func renamePath(p string, al [2]string) string {
 	if !strings.HasPrefix(p, "/") {
@@ -309,23 +309,24 @@ func variant(s *vfs.Node, r vfs.Req, k int) (*vfs.Node, vfs.Req) {
 		}
 		return p
 	}
+	na := len(aliasPairs)
 	switch {
-	case k < 5: // k == 5 would be the pair with "..", which is not a name: skipped by construction
+	case k < na:
 		al := aliasPairs[k]
 		r.Path = renamePath(r.Path, al)
 		if r.HasDest {
 			r.Dest = renamePath(r.Dest, al)
 		}
 		return renameTree(s, al), r
-	case k == 5:
+	case k == na:
 		r.Path = slash(r.Path)
-	case k == 6:
+	case k == na+1:
 		if r.HasDest {
 			r.Dest = slash(r.Dest)
 		} else {
 			r.Path = slash(r.Path)
 		}
-	case k == 7:
+	case k == na+2:
 		r.Path = slash(r.Path)
 		if r.HasDest {
 			r.Dest = slash(r.Dest)
@@ -377,7 +378,7 @@ func TestEngineA(t *testing.T) {
 			}
 			report(t, Case{Tree: ToJ(s), Reqs: []vfs.Req{r}}, e.judge(st, "A"))
 			if hv := vev.Hash(fmt.Sprintf("variant/%d/%d/%d", seed, si, ri)); hv%3 == 0 {
-				s2, r2 := variant(s, r, int(hv/3%nVariants))
+				s2, r2 := variant(s, r, int(hv/3%uint64(nVariants)))
 				e.set(s2)
 				st, err := e.step(r2)
 				if err != nil {
